@@ -62,7 +62,7 @@ from .extensions import (
 from .find_unused import used
 from .functions import FunctionDefNode
 from .node_visitor import ErrorContext
-from .safe import is_instance_of_typing_name, is_typing_name, is_union
+from .safe import is_instance_of_typing_name, is_typing_name, is_union, safe_repr
 from .signature import (
     ANY_SIGNATURE,
     ELLIPSIS_PARAM,
@@ -562,7 +562,7 @@ def _type_from_runtime(
     elif is_typing_name(val, "NamedTuple"):
         return TypedValue(tuple)
     else:
-        ctx.show_error(f"Invalid type annotation {val}")
+        ctx.show_error(f"Invalid type annotation {safe_repr(val)}")
         return AnyValue(AnySource.error)
 
 
